@@ -83,6 +83,22 @@ def publish_fact_check(res, exe, which):
     if pf.get('rc') != 'ok' or pf['resume_aborts_clear'] not in (0, 1) or pf['enqueue_aborts_clear'] not in (0, 1):
         raise vlib.HarnessFailure('publish probe inconclusive: %s' % pf)
     res.extra.setdefault('code_facts', {}).update(pf)
+    if 'clear_checked' in which:
+        if pf.get('clear_checked') not in (0, 1):
+            raise vlib.HarnessFailure('publish probe inconclusive: %s' % pf)
+        if not pf['clear_checked']:
+            r = vlib.model_check(res, SDS, 'MCp', 'PoolState_2x2_unchecked.cfg', must_hold=False, deadlock=False, timeout=1500)
+            vlib.tlc_must_hold(r, 'PoolState_2x2_unchecked.cfg')
+            if r.violation:
+                res.violation('poolstate:model:unchecked-clear', 'a clear transaction of arena::my_pool_state / my_mandatory_concurrency (atomic_flag::try_clear_if) that a publisher has aborted (busy -> SET) clears '
+                              'the flag all the same (observed on the running code: a test_and_set issued from inside the predicate does not make the transaction fail); with that fact the PoolState model '
+                              'loses an enqueued task: the publisher is told that workers were already requested, the transaction completes, demand is withdrawn and the last thread leaves '
+                              '(%s violated)' % r.violation, {'tlc_counterexample': vlib.extract_error_trace(r.out)[-40:], 'facts': pf})
+        else:   # vacuity control: the final CAS is needed
+            r = vlib.model_check(res, SDS, 'MCp', 'PoolState_2x2_unchecked.cfg', must_hold=False, deadlock=False, timeout=1500)
+            if r.violation != 'NoLostTask':
+                raise vlib.HarnessFailure('vacuity control failed: PoolState with an unchecked clear should lose a task')
+        which = tuple(k for k in which if k != 'clear_checked')
     if not all(pf[k] for k in which):
         r = vlib.model_check(res, SDS, 'MCp', 'PoolState_2x2_guarded.cfg', must_hold=False, deadlock=False, timeout=1500)
         vlib.tlc_must_hold(r, 'PoolState_2x2_guarded.cfg')
